@@ -398,6 +398,39 @@ pub fn run(ctx: &Ctx, rep: &mut Report) {
                 }
             }
         }
+        // every fifth ordered triple of the record pool as a three-sample build: report format and per-sample counts
+        {
+            let pool: Vec<&[u8]> = vec![b"ACGAT", b"ACGATC", b"ACTAT", b"NACGAT", b"ACGANC", b"atcgt", b"ACNATACGAT", b"GGGGGA", b"ATCGTA", b"ACGTACGTA", b"ACAGTA", b"TGCATGCAAT"];
+            let mut n = 0u64;
+            for a in &pool {
+                for b in &pool {
+                    for c in &pool {
+                        n += 1;
+                        if n % 5 != 0 && !thorough {
+                            continue;
+                        }
+                        idx += 1;
+                        if !ctx.mine(idx) {
+                            continue;
+                        }
+                        let samples = vec![vec![a.to_vec()], vec![b.to_vec(), c.to_vec()], vec![c.to_vec()]];
+                        for rc in [true, false] {
+                            rep.evaluations += 1;
+                            rep.nontrivial += 1;
+                            rep.corner("cli_build_nk_pool");
+                            if let Err(e) = cli_case(&samples, 5, rc) {
+                                let sj: Vec<Vec<String>> = samples.iter().map(|s| s.iter().map(|r| String::from_utf8_lossy(r).to_string()).collect()).collect();
+                                rep.violate(format!("cli build+nk k=5 rc={rc} samples={sj:?}"), e, json!({"cli": true, "samples": sj, "k": 5, "rc": rc}));
+                            }
+                        }
+                    }
+                }
+                if ctx.expired() {
+                    capped = true;
+                    break;
+                }
+            }
+        }
         rep.completed.push("CLI build+nk".into());
     }
     rep.sample(json!({"records": ["ACGTTGCAT"], "k": 9, "rc": true, "wide": false, "note": "record of length exactly k: one split k-mer expected"}));
